@@ -126,7 +126,9 @@ def contracts(reg):
         target=f"{readfile.INIT}::read_file",
         params=[("path", p_str()), ("max_file_size", p_int(default=100 * 1024 * 1024))],
         generator=True,
-        ensures=[("accepted-only-within-limit", lambda c: z3.Not(too_large(c)))],
+        ensures=[("accepted-only-within-limit", lambda c: z3.Not(too_large(c))),
+                 ("size-taken-from-stat-of-the-given-path-when-limit-enabled",
+                  lambda c: z3.BoolVal(True) if the_path(c) is not None else c.args["max_file_size"].t <= 0)],
         raises=[Raises(TOOLARGE, when=rf_toolarge, label="too large: before the file is opened"),
                 Raises("Exception", sub=True, when=rf_other, label="anything else only if the size check passed")],
         note="size > max_file_size > 0  <=>  ExtractionFileTooLargeError before open(); max_file_size <= 0 disables the check",
@@ -217,6 +219,22 @@ def policy(repo, tier):
     size_guard("_extract_from_tar_optimized", lambda t: t == "member.size > _config.max_memory_size",
                lambda n: isinstance(n.func, ast.Attribute) and n.func.attr in ("extractfile", "extract", "extractall"),
                "member-size-check-dominates-read")
+    # the declared size is the size that is read only for regular members (links declare 0 and read their target)
+    f = arch.functions.get("_extract_from_tar_optimized")
+    if f is not None:
+        def gen_cond(test, branch):
+            t = ast.unparse(test)
+            if t == "not member.isreg()" and branch is False:
+                return ["isreg(member)"]
+            if t == "member.isreg()" and branch is True:
+                return ["isreg(member)"]
+            return []
+        mf = MustFacts(gen_cond=gen_cond,
+                       need=lambda n: [("isreg(member)", f"line {n.lineno}")] if isinstance(n, ast.Call) and isinstance(n.func, ast.Attribute)
+                       and n.func.attr == "extractfile" else [], kill_names=lambda fact: ["member"])
+        res = mf.run(f)
+        obls.append(ground_obligation("C12/archive_extractor.py::_extract_from_tar_optimized/typestate#size-check-applies-to-regular-members-only",
+                                      bool(res) and all(r.ok for r in res), "; ".join(r.desc for r in res if not r.ok), ARCH))
     size_guard("_process_archive_entry", lambda t: t == "len(file_data) > MAX_ARCHIVE_FILE_SIZE",
                lambda n: dotted(n.func) in ("extractor", "_get_file_extractor_cached"),
                "entry-size-check-dominates-extraction")
